@@ -382,7 +382,10 @@ func (sc *serverConn) readLoop() (err error) {
 				return errConnClosed
 			}
 
-			sc.reader <- fr
+			if !sc.forward(fr) {
+				return errConnClosed
+			}
+
 			continue
 		}
 
@@ -394,7 +397,10 @@ func (sc *serverConn) readLoop() (err error) {
 				sc.handleSettings(st)
 				// forward to handleStreams so the INITIAL_WINDOW_SIZE delta is
 				// applied to open streams in frame order.
-				sc.reader <- fr
+				if !sc.forward(fr) {
+					return errConnClosed
+				}
+
 				continue
 			}
 		case FrameWindowUpdate:
@@ -406,7 +412,10 @@ func (sc *serverConn) readLoop() (err error) {
 			}
 
 			// the actual window bookkeeping happens in handleStreams.
-			sc.reader <- fr
+			if !sc.forward(fr) {
+				return errConnClosed
+			}
+
 			continue
 		case FramePing:
 			ping := fr.Body().(*Ping)
@@ -430,6 +439,21 @@ func (sc *serverConn) readLoop() (err error) {
 	}
 
 	return err
+}
+
+// forward hands a frame to the stream loop. It reports false, having released
+// the frame, once that loop has gone: it stops receiving after a connection
+// error, and a peer that keeps sending would otherwise fill the channel and
+// park the read loop, and with it ServeConn, for good.
+func (sc *serverConn) forward(fr *FrameHeader) bool {
+	select {
+	case sc.reader <- fr:
+		return true
+	case <-sc.handlerStop:
+		ReleaseFrameHeader(fr)
+
+		return false
+	}
 }
 
 // handleStreams handles everything related to the streams
